@@ -49,7 +49,7 @@ func alertOf(err error) int {
 
 // C21 — Compressed server certificates are recovered exactly.
 func TestC21(t *testing.T) {
-	r := mon.New("C21", "server chains of 1..4 certificates with ballast (certificate messages from ~0.5 KB to ~200 KB) x {brotli, zlib, zstd} x encoder settings (levels, stored blocks, mid-stream flushes every n bytes, zstd windows) replacing the real Certificate message before it enters the server transcript (hook H1) x corruptions (declared length -1/+1/-1000/+1000/0/2^24-1, truncated stream, flipped byte, trailing garbage, unadvertised algorithm); clients: parrots advertising compress_certificate and custom specs advertising each subset. Oracle: valid => handshake completes and PeerCertificates equal the chain sent; invalid => client error and the server receives bad_certificate; never a different certificate. distinct = (client, algorithm, encoder setting, size bucket, corruption)")
+	r := mon.New("C21", "server chains of 1..4 certificates with ballast (certificate messages from ~0.5 KB to ~200 KB) x {brotli, zlib, zstd} x encoder settings (levels, stored blocks, mid-stream flushes every n bytes, zstd windows) replacing the real Certificate message before it enters the server transcript (hook H1) x corruptions (declared length -1/+1/-1000/+1000/0/2^24-1, truncated stream, flipped byte, trailing garbage, unadvertised algorithm); clients: parrots advertising compress_certificate and custom specs advertising each subset; a third of the servers also send a CertificateRequest. Oracle: valid => handshake completes and PeerCertificates equal the chain sent; invalid => client error and the server receives bad_certificate; never a different certificate. distinct = (client, algorithm, encoder setting, size bucket, corruption)")
 	defer r.Finish(t)
 	f := peer.Fix()
 	// chains
@@ -204,7 +204,19 @@ func TestC21(t *testing.T) {
 		}}
 		scfg := peer.ServerConfig()
 		scfg.Certificates = []tls.Certificate{j.ch.cert}
-		h := RunCase(j.cl.t, GridCase{Server: scfg, Plan: plan}, "example.test", nil, peer.Opts{})
+		// a third of the servers also ask for a client certificate (CertificateRequest precedes the
+		// compressed certificate in the same flight); half of those clients have one to send
+		var extra func(c *tls.Config)
+		switch i % 6 {
+		case 1:
+			scfg.ClientAuth = tls.RequestClientCert
+			r.Count("with_certificate_request", 1)
+		case 4:
+			scfg.ClientAuth = tls.RequireAnyClientCert
+			extra = func(c *tls.Config) { c.Certificates = []tls.Certificate{peer.Fix().ECDSA} }
+			r.Count("with_certificate_request", 1)
+		}
+		h := RunCase(j.cl.t, GridCase{Server: scfg, Plan: plan}, "example.test", extra, peer.Opts{})
 		sig := map[string]string{"client": j.cl.name, "alg": fmt.Sprint(j.alg), "setting": settings[j.set].name, "corrupt": j.corrupt}
 		rep := map[string]any{"case": i, "client": j.cl.name, "chain": j.ch.name, "alg": j.alg, "setting": settings[j.set].name, "corrupt": j.corrupt, "cert_msg_len": len(sentBody), "compressed_msg_len": sentMsgLen, "err": h.ErrString()}
 		if h.ClientPanic != "" {
